@@ -43,6 +43,8 @@ def make_config(rng, **ov):
     exact.  `ov` overrides any top-level key after generation."""
     granular = ov.get("granular", rng.random() < 0.5)
     start = date(rng.choice([2021, 2022, 2023]), rng.choice([1, 1, 3, 7, 11]), 1)
+    if "start" in ov:   # optional override [y, m, d] (e.g. a run that ends on 31 Dec of a leap year)
+        start = date(*ov["start"])
     ndays = ov.get("ndays", rng.choice([120, 200, 400, 500]))
     end = start + timedelta(days=ndays - 1)
     if not ov.get("allow_trailing_year", False) and (end.month, end.day) < (start.month, start.day):
